@@ -17,8 +17,8 @@ from lib import vlib
 from lib.vlib import cq_bytes, cq_list, cq_N
 
 SETUP_BUILDS = [{"name": "c04"}]
-COQ_TARGETS = ["Store/Properties_C04.v", "Store/Corr.v"]
-HEADER = ("From Coq Require Import List NArith Bool.\nFrom V Require Import Common.Bytes Store.Fs Store.Ops Store.Corr.\n"
+COQ_TARGETS = ["Store/Properties_C04.v", "Store/Corr.v", "Store/Pull2.v"]
+HEADER = ("From Coq Require Import List NArith Bool.\nFrom V Require Import Common.Bytes Store.Fs Store.Ops Store.Corr Store.Pull2.\n"
           "Import ListNotations.\nOpen Scope N_scope.\n")
 
 MT = {
@@ -41,6 +41,7 @@ def sha(b):
 def parse_name(s):
     """model.ParseName for the well-formed names the generator produces -> (host, ns, model, tag)"""
     tag = DEFAULT_TAG
+    s = re.sub(r"^https?://", "", s)   # (the new pull path takes the scheme from the name)
     if s.rfind(":") > s.rfind("/"):
         s, tag = s.rsplit(":", 1)
     parts = s.split("/")
@@ -266,8 +267,11 @@ def gen_pull(rng, fx, name, fault=None, small=False):
         bodies.append((3, rng.choice(TEMPLATES).encode()))
     if not small and rng.random() < 0.2:
         bodies.append((7, rng.choice(LICENSES).encode()))
-    if rng.random() < 0.15:
-        bodies.append((7, b""))  # an empty layer: no parts, the -partial file is renamed at once
+    if rng.random() < 0.3:
+        # an empty layer (no parts, the -partial file is renamed at once): first, in the middle or last
+        have = {mt for mt, _ in bodies}
+        mt = rng.choice([m for m in (4, 3, 7) if m not in have] or [7])
+        bodies.insert(rng.randint(0, len(bodies)), (mt, b""))
     cfg = rng.choice(CONFIGS)
     man = {"schemaVersion": 2, "mediaType": "application/vnd.docker.distribution.manifest.v2+json",
            "config": mk_layer(8, cfg), "layers": [mk_layer(mt, b) for mt, b in bodies]}
@@ -355,6 +359,34 @@ def gen_pull_big(rng, fx, name):
 
 
 MIB = 1 << 20
+EMPTY_DIGEST = "sha256:" + sha(b"")
+
+
+def gen_pull2_hist(rng, fx, name):
+    """a pull through the new code path (OLLAMA_EXPERIMENT=client2) as one operation of a history: a model layer, some of
+    system / template / a license long enough to come in chunks, mostly with a layer of length 0 (first, in the middle or last);
+    now and then one chunk fails (the scratch file and the records of the other chunks stay)"""
+    import random
+    bodies = [(0, fx.data[rng.choice(["g0", "g1"])])]
+    if rng.random() < 0.5:
+        bodies.append((4, rng.choice(SYSTEMS).encode()))
+    if rng.random() < 0.4:
+        bodies.append((7, P2_LICENSE + rng.choice([b"A", b"BB"])))
+    if rng.random() < 0.3:
+        bodies.append((3, rng.choice(TEMPLATES).encode()))
+    if rng.random() < 0.75:
+        have = {mt for mt, _ in bodies}
+        mt = rng.choice([m for m in (4, 3, 7) if m not in have] or [7])
+        bodies.insert(rng.randint(0, len(bodies)), (mt, b""))
+    cfg = rng.choice(CONFIGS)
+    # (one chunking per content, whatever the history: the records name the ranges)
+    layouts = {sha(b): chunk_layout(random.Random(int(sha(b)[:8], 16)), b) for _, b in bodies if len(b) >= P2_THRESHOLD}
+    faults = None
+    if rng.random() < 0.2:
+        _, b = rng.choice(bodies)
+        a = rng.choice(layouts.get(sha(b), [[0, len(b) - 1]]))[0]
+        faults = {"sha256:%s@%d" % (sha(b), a): "404" if not b else rng.choice(["404", "corrupt"])}
+    return gen_pull2(rng, fx, name, bodies, cfg, layouts, faults=faults)
 
 
 def gen_abort(rng, fx, uploaded, used):
@@ -419,7 +451,14 @@ def gen_history(rng, fx, n_ops, klass):
             # a fault before a create: nothing of the failed request may show in the layers made afterwards
             while rng.random() < p_abort:
                 ops.append(gen_abort(rng, fx, uploaded, used))
-        if klass == "pull" and rng.random() < 0.3:
+        if klass in ("pull", "pull2") and rng.random() < 0.12:
+            # the empty blob is there before a pull that may list an empty layer
+            ops.append({"op": "blob", "digest": EMPTY_DIGEST, "data": ""})
+        if klass == "pull2" and rng.random() < 0.4:
+            n4 = parse_name(rnd_name(rng, used, 0.5))
+            ops.append(gen_pull2_hist(rng, fx, "%s/%s/%s:%s" % n4))
+            used.append("%s/%s/%s:%s" % n4)
+        elif klass in ("pull", "pull2") and rng.random() < 0.3:
             name = rnd_name(rng, used, 0.5)
             ops.append(gen_pull(rng, fx, name, rng.choice([None] * 5 + ["no-manifest", "missing-blob", "corrupt-last"])))
             used.append(name)
@@ -457,7 +496,7 @@ def gen_history(rng, fx, n_ops, klass):
             # does the blob exist?  both spellings name one file, the hex case is kept
             h = sha(fx.data[rng.choice(uploaded if rng.random() < 0.8 else fx.names)])
             ops.append({"op": "head", "digest": rng.choice(["sha256:" + h, "sha256-" + h, "sha256:" + h.upper(), "sha256-" + h.upper()])})
-        elif r < 0.89 and klass != "pull":
+        elif r < 0.89 and klass not in ("pull", "pull2"):
             ops.append(gen_legacy(rng, fx, uploaded))
             ops.append({"op": "startup"})
         else:
@@ -465,14 +504,63 @@ def gen_history(rng, fx, n_ops, klass):
     blobs_linked = any(o["op"] == "linkdir" and o["kind"] == "blobs" for o in ops)
     if blobs_linked:
         ops = [o for o in ops if o["op"] != "legacy"]
-    if klass != "pull" and not blobs_linked and rng.random() < 0.35:
+    if klass not in ("pull", "pull2") and not blobs_linked and rng.random() < 0.35:
         ops.append(gen_legacy(rng, fx, uploaded))
     if rng.random() < 0.7 or (ops and ops[-1]["op"] == "legacy"):
         ops.append({"op": "startup"})
     return ops
 
 
+def corpus_empty_layers(fx):
+    """listed models whose manifest has a layer of length 0, made by both pull paths: the empty layer last / first / in the
+    middle, the blob sha256-e3b0c442... absent, present (another model uses it; uploaded), gone again; a pull that fails at the
+    empty layer and is repeated; then the user works on what is listed"""
+    import random
+    g0, g1, cfg, lic = fx.data["g0"], fx.data["g1"], CONFIGS[0], P2_LICENSE + b"A"
+
+    def p2(name, bodies, faults=None):
+        lay = {sha(b): chunk_layout(random.Random(int(sha(b)[:8], 16)), b) for _, b in bodies if len(b) >= P2_THRESHOLD}
+        return gen_pull2(None, fx, name, bodies, cfg, lay, faults=faults)
+
+    def p1(name, bodies):
+        man = {"schemaVersion": 2, "mediaType": "application/vnd.docker.distribution.manifest.v2+json",
+               "config": mk_layer(8, cfg), "layers": [mk_layer(mt, b) for mt, b in bodies]}
+        n = parse_name(name)
+        return {"op": "pull", "name": name, "_served": [b for _, b in bodies] + [cfg], "_manifest": man,
+                "registry": {"manifests": {(n[1] + "/" + n[2] + ":" + n[3]).lower(): man},
+                             "blobs": {"sha256:" + sha(b): b.hex() for _, b in bodies + [(8, cfg)]}}}
+    return [
+        p2("example.com/ns/last:t", [(0, g0), (4, b"")]),                                    # blob absent
+        {"op": "create", "name": "d-last", "from": "example.com/ns/last:t", "template": TEMPLATES[0]},
+        {"op": "startup"},
+        p2("example.com/ns/first:t", [(7, b""), (0, g0), (4, SYSTEMS[1].encode())]),          # blob present: used by two models
+        {"op": "delete", "name": "d-last"},
+        {"op": "delete", "name": "example.com/ns/last:t"},
+        {"op": "delete", "name": "example.com/ns/first:t"},                                  # ... and gone again
+        {"op": "startup"},                                                                   # (the chunk records go)
+        p2("example.com/ns/mid:t", [(0, g1), (3, b""), (7, lic)], faults={EMPTY_DIGEST + "@0": "404"}),   # fails at the empty layer
+        p2("example.com/ns/mid:t", [(0, g1), (3, b""), (7, lic)]),
+        {"op": "create", "name": "d-mid", "from": "example.com/ns/mid:t", "system": SYSTEMS[0]},
+        {"op": "startup", "env": ["OLLAMA_NOPRUNE=1"]},
+        {"op": "delete", "name": "example.com/ns/mid:t"},
+        {"op": "delete", "name": "d-mid"},
+        # (the records of the deleted layers are still there: the next pull takes their chunks for fetched and fails at the
+        #  commit — "incomplete or corrupt" — until a restart prunes the records; nothing is listed by it)
+        p2("example.com/ns/stale:t", [(0, g1), (4, b"")]),
+        {"op": "startup"},
+        {"op": "blob", "digest": EMPTY_DIGEST, "data": ""},                                  # uploaded, used by nothing
+        p2("example.com/ns/two:t", [(4, b""), (0, g0), (7, b"")]),
+        p1("example.com/ns/old-first:t", [(4, b""), (0, g0)]),
+        {"op": "delete", "name": "example.com/ns/two:t"},
+        {"op": "delete", "name": "example.com/ns/old-first:t"},
+        p1("example.com/ns/old-last:t", [(0, g1), (7, lic), (3, b"")]),                       # the old path, blob absent
+        {"op": "create", "name": "d-old", "from": "example.com/ns/old-last:t", "system": SYSTEMS[2]},
+        {"op": "startup"},
+    ]
+
+
 CORPUS = [
+    ("pulls-with-empty-layers", corpus_empty_layers),
     # faults before a create: uploads and a create request whose bodies end with a read error after 0 / a few /
     # more than 2^20 bytes; the layers the server makes afterwards (system, template, params, messages, license,
     # config) must be stored under the hash of their own content
@@ -717,6 +805,22 @@ def render_history(fx, ops, obs):
     ids = Ids()
     steps = []
     before = EMPTY_STATE
+    if any(is_pull2(o) for o in ops):
+        # a history with pulls through the new code: the store has scratch files, Store/Pull2.chk_history2
+        emp = cq_N(ids.content(b""))
+        tab = p2_tables(ops)
+        for op, o in zip(ops, obs):
+            st = o["state"]
+            for b in st["blobs"]:
+                ids.size.setdefault(ids.h(b["sha"]), b["size"])
+            if is_pull2(op):
+                act = "(A2Pull %s %s)" % (cq_name(parse_name(op["name"])), cq_served2(ids, op))
+            else:
+                flat = lambda x: dict(x, blobs=[b for b in x["blobs"] if not b["name"].endswith(".chunked")])
+                act = "(A2Old %s)" % act_to_coq(ids, fx, op, flat(before), flat(st))
+            steps.append("(MkStep2 %s %s %s)" % (act, res_class(op, o), cq_st2(ids, st, tab)))
+            before = st
+        return "chk_history2 %s %s %s" % (ids.tbl(), emp, cq_list(steps, "step2"))
     for op, o in zip(ops, obs):
         st = o["state"]
         # register sizes first so that contents written by this op are known
@@ -725,6 +829,107 @@ def render_history(fx, ops, obs):
         steps.append("(MkStep %s %s %s)" % (act_to_coq(ids, fx, op, before, st), res_class(op, o), cq_store(ids, st)))
         before = st
     return "chk_history %s %s" % (ids.tbl(), cq_list(steps, "step"))
+
+
+# ----------------------------------------------------------------------------------------------- the new pull path (client2)
+
+def norm2(st):
+    """an empty scratch file sha256-<h>.chunked (opened with O_CREATE, never truncated) is the same as none"""
+    if any(b["size"] == 0 and b["name"].endswith(".chunked") for b in st["blobs"]):
+        st = dict(st, blobs=[b for b in st["blobs"] if not (b["size"] == 0 and b["name"].endswith(".chunked"))])
+    return st
+
+
+P2_THRESHOLD = 64
+P2_LICENSE = ("Permission is hereby granted, free of charge, to any person obtaining a copy of this software and associated "
+              "documentation files, to deal in the Software without restriction. ").encode()
+
+
+def chunk_layout(rng, b):
+    """the ranges the chunksums endpoint announces for a layer: 2-4 ranges covering it, none of them all zeros (a range
+    of the scratch file that was never written reads as zeros; the projection tells written from unwritten by content)"""
+    n = len(b)
+    for _ in range(20):
+        cuts = sorted(rng.sample(range(8, n - 8), rng.randint(1, 3)))
+        rs = [[a, e - 1] for a, e in zip([0] + cuts, cuts + [n])]
+        if all(any(b[a:e + 1]) for a, e in rs):
+            return rs
+    return [[0, n - 1]]
+
+
+def cache_key(lhex, chex, a, e):
+    return ("v1 pull chunksum sha256:%s sha256:%s %d-%d" % (lhex, chex, a, e)).encode()
+
+
+def gen_pull2(rng, fx, name, bodies, cfg, layouts, faults=None):
+    """POST /api/pull through the routes of OLLAMA_EXPERIMENT=client2 (Registry.Pull + blob.DiskCache)"""
+    man = {"schemaVersion": 2, "mediaType": "application/vnd.docker.distribution.manifest.v2+json",
+           "config": mk_layer(8, cfg), "layers": [mk_layer(mt, b) for mt, b in bodies]}
+    raw = json.dumps(man)
+    n = parse_name(name)
+    layers = []
+    for _, b in bodies + [(8, cfg)]:
+        layers.append((sha(b), b, layouts[sha(b)] if len(b) >= P2_THRESHOLD else [[0, len(b) - 1]]))
+    reg = {"manifests_raw": {(n[1] + "/" + n[2] + ":" + n[3]).lower(): raw},
+           "blobs": {"sha256:" + h: b.hex() for h, b, _ in layers},
+           "chunks": {"sha256:" + h: rs for h, b, rs in layers if len(b) >= P2_THRESHOLD},
+           "faults": faults or {}}
+    return {"op": "pull", "client2": True, "threshold": P2_THRESHOLD, "name": "http://%s/%s/%s:%s" % n, "registry": reg,
+            "_p2": {"raw": raw, "man": man, "layers": layers, "faults": faults or {}}}
+
+
+def is_pull2(op):
+    return op["op"] == "pull" and op.get("client2")
+
+
+def p2_tables(ops):
+    """file content of a scratch file -> the set of chunks in it, for every layer of every client2 pull of the case"""
+    tab = {}
+    for op in ops:
+        if not is_pull2(op):
+            continue
+        for h, b, rs in op["_p2"]["layers"]:
+            for mask in range(1, 1 << len(rs)):
+                size = max(e + 1 for i, (a, e) in enumerate(rs) if mask >> i & 1)
+                buf = bytearray(size)
+                for i, (a, e) in enumerate(rs):
+                    if mask >> i & 1:
+                        buf[a:e + 1] = b[a:e + 1]
+                tab[(h, sha(bytes(buf)))] = [i for i in range(len(rs)) if mask >> i & 1]
+    return tab
+
+
+def cq_st2(ids, st, tab):
+    chunked = []
+    for b in st["blobs"]:
+        m = re.match(r"^sha256-([0-9a-f]{64})\.chunked$", b["name"])
+        if m:
+            got = tab.get((m.group(1), b["sha"]))
+            if got is None:
+                raise ValueError("scratch file %s holds something else than whole chunks of its layer" % b["name"])
+            chunked.append("(%s,%s)" % (cq_N(ids.h(m.group(1))), cq_list(["%d%%nat" % i for i in got], "nat")))
+    base = dict(st, blobs=[b for b in st["blobs"] if not b["name"].endswith(".chunked")])
+    return "(MkSt2 %s %s)" % (cq_store(ids, base), cq_list(chunked, "(N * list nat)"))
+
+
+def cq_served2(ids, op):
+    p = op["_p2"]
+    man = p["man"]
+    for l in man["layers"] + [man["config"]]:
+        ids.size.setdefault(ids.h(l["digest"][7:]), l["size"])
+    m = "(MkManifest %s %s)" % (cq_layer(ids, man["config"]), cq_list([cq_layer(ids, l) for l in man["layers"]], "layer"))
+    chunks, seen = [], set()
+    for h, b, rs in p["layers"]:
+        if h in seen:
+            continue
+        seen.add(h)
+        cs = []
+        for a, e in rs:
+            key = ids.content(cache_key(h, sha(b[a:e + 1]), a, e))
+            cs.append("(MkChunk %s %s)" % (cq_N(key), "false" if ("sha256:%s@%d" % (h, a)) in p["faults"] else "true"))
+        chunks.append("(%s,%s)" % (cq_N(ids.h(h)), cq_list(cs, "chunk")))
+    return "(MkServed2 %s %s %s)" % (m, cq_N(ids.content(p["raw"].encode())), cq_list(chunks, "(N * list chunk)"))
+
 
 
 # ----------------------------------------------------------------------------------------------- monitor
@@ -907,7 +1112,8 @@ def shrink(ctx, binp, ops, sig):
 def describe(op):
     d = {k: v for k, v in op.items() if not k.startswith("_") and k not in ("data", "registry")}
     if "registry" in op:
-        d["registry"] = {"manifests": op["registry"]["manifests"], "blobs": {k: "<%d bytes>" % (len(v) // 2) for k, v in op["registry"]["blobs"].items()}}
+        d["registry"] = {"manifests": op["registry"].get("manifests") or op["registry"].get("manifests_raw"),
+                         "chunks": op["registry"].get("chunks"), "faults": op["registry"].get("faults"), "blobs": {k: "<%d bytes>" % (len(v) // 2) for k, v in op["registry"]["blobs"].items()}}
     if "data" in op:
         d["data"] = "<%d bytes, sha256 %s>" % (len(op["data"]) // 2, sha(bytes.fromhex(op["data"]))[:12])
     return d
@@ -918,7 +1124,8 @@ def run(ctx):
                 "create from uploaded GGUF files (plain, adapter, projector, with auto-detected chat template, with trailing bytes) and FROM "
                 "existing/missing/case-variant models with system/template/params/license/messages overrides drawn from small pools so that layers "
                 "are shared, copy, delete, start-up prune; blob uploads and create requests whose body ends with a read error after 0 / a few / "
-                "> 2^20 bytes, placed before creates; names over hosts/namespaces/models/tags incl. case variants of names already used. "
+                "> 2^20 bytes, placed before creates; pulls from a fake registry through the old code and through the new code path (client2: chunked "
+                "layers, one chunk failing now and then), manifests with a layer of length 0 first / in the middle / last, the empty blob there before or not; names over hosts/namespaces/models/tags incl. case variants of names already used. "
                 "non-trivial = the history changed the store in >= 3 steps; distinct = by canonical JSON of the history")
     ctx.trusted = ["Coq 8.16.1 kernel + vm_compute", "hand-written model coq/Store/{Fs,Ops}.v tied to the code by this differential run only",
                    "Go harness harness/cmd/c04 (exported API of /repo only: Server.GenerateRoutes, server.Serve, ggml.WriteGGUF), python generator/monitor",
@@ -927,7 +1134,7 @@ def run(ctx):
                        "the contents the server derives itself (config JSON, merged params JSON, messages JSON, auto-detected template) are oracle "
                        "inputs of the model, read off the implementation's resulting manifest / a probe run; the monitor checks them independently",
                        "directories are not modelled; the monitor checks that start-up prune leaves no empty manifest directory"]
-    ctx.proof_stage(["Store"], "Store/Properties_C04.v", extra_targets=["Store/Corr.v"],
+    ctx.proof_stage(["Store"], "Store/Properties_C04.v", extra_targets=["Store/Corr.v", "Store/Pull2.v"],
                     expect_theorems=["C04_listed_complete", "C04_frame", "C04_prune_exact", "C04_case_unique", "C04_get_existing_order_free",
                                      "C04_fixblobs_migrates", "C04_fixblobs_idempotent"])
     if not ctx.quick():
@@ -948,11 +1155,14 @@ def run(ctx):
             hists.append(json.load(open(os.path.join(cdir, f)))["ops"])
             klasses.append("corpus:" + f)
     for i in range(n_hist):
-        klass = rng.choice(["mixed", "mixed", "spelling", "long", "abort"]) if i >= (6 if ctx.quick() else 150) else "pull"
+        klass = rng.choice(["mixed", "mixed", "spelling", "long", "abort"]) if i >= (8 if ctx.quick() else 200) else ("pull", "pull2")[i % 2]
         n_ops = rng.randint(4, 10) if klass != "long" else rng.randint(14, 28)
         hists.append(gen_history(rng, fx, n_ops, klass))
         klasses.append(klass)
     obs, err = run_histories(ctx, binp, hists)
+    for ob in obs or []:
+        for o in ob:
+            o["state"] = norm2(o["state"])
     if obs is None:
         ctx.obligation("harness c04 answered every history", False, err)
         ctx.proof_failures.append({"obligation": "correspondence: harness c04 did not answer every history", "detail": err})
@@ -963,7 +1173,9 @@ def run(ctx):
         changed = sum(1 for a, b in zip([{"state": EMPTY_STATE}] + ob, ob) if a["state"] != b["state"])
         ctx.note_case(strip(h), changed >= 3, kl, sample={"ops": [describe(o) for o in h[:6]]})
         for o in h:
-            ctx.count("op:" + o["op"])
+            ctx.count("op:" + o["op"] + ("(client2)" if is_pull2(o) else ""))
+            if o["op"] == "pull" and any(l["size"] == 0 for l in ((o.get("_manifest") or (o.get("_p2") or {}).get("man") or {}).get("layers") or [])):
+                ctx.count("pull-with-empty-layer" + ("(client2)" if is_pull2(o) else ""))
         for o in ob:
             ctx.count("result:%s" % o.get("code"))
         for (i, sig, what) in monitor_history(h, ob):
@@ -989,7 +1201,9 @@ def run(ctx):
     for bi in bad[:10]:
         hi = item_idx[bi]
         h, ob = hists[hi], obs[hi]
-        where = ctx.coq_print(HEADER, items[bi].replace("chk_history", "(fun t l => first_bad (size_tbl t) empty_store l 0%nat)", 1)) if len(ctx.mismatches) < 3 else None
+        fb = ("chk_history2", "(fun t e l => first_bad2 (size_tbl t) e (MkSt2 empty_store []) l 0%nat)") if items[bi].startswith("chk_history2") \
+            else ("chk_history", "(fun t l => first_bad (size_tbl t) empty_store l 0%nat)")
+        where = ctx.coq_print(HEADER, items[bi].replace(fb[0], fb[1], 1)) if len(ctx.mismatches) < 3 else None
         ctx.mismatch("Store/Corr.chk_history", {"history": [describe(o) for o in h], "class": klasses[hi]},
                      [{"code": o.get("code"), "errors": o.get("errors"), "body": (o.get("body") or "")[-200:]} for o in ob], where)
 
